@@ -17,7 +17,7 @@ from tartiflette import Directive, Scalar, create_engine
 ID = "C11"
 LEVEL = "exploration"
 WORKERS = {"quick": 8, "thorough": 16}
-CASES = {"quick": 3200, "thorough": 80000}
+CASES = {"quick": 2000, "thorough": 80000}
 BUDGET = {"quick": 50, "thorough": 560}
 RULE = (
     "case = generated schema model (every type kind, wrappers to depth 3, argument / input-field defaults of every value kind incl. "
@@ -200,6 +200,10 @@ def split(c, M):
     need = M.get("explicit_schema") or roots.get("query") != "Query" or roots.get("mutation", "Mutation") != "Mutation" or roots.get("subscription", "Subscription") != "Subscription"
     if need:
         sdef = {"roots": dict(roots), "dirs": M.get("schema_dirs")}
+        if sdef["dirs"] and c.maybe(50):
+            # the directives arrive through a directive-only `extend schema @...`
+            pieces.append({"p": "schema_ext", "def": {"roots": {}, "dirs": sdef["dirs"]}})
+            sdef["dirs"] = None
         if roots.get("mutation") and c.maybe(35):
             sdef["roots"].pop("mutation")
             pieces.append({"p": "schema", "def": sdef})
@@ -278,6 +282,8 @@ def p_piece(st, piece):
         return "directive @%s%s on %s" % (piece["name"], p_args(st, d.get("args")), " | ".join(d["locations"]))
     if p in ("schema", "schema_ext"):
         lines = ["  %s: %s" % (op, d["roots"][op]) for op in ("query", "mutation", "subscription") if d["roots"].get(op)]
+        if not lines:
+            return "extend schema%s" % p_dirs(d.get("dirs"))
         return "%sschema%s {\n%s\n}" % ("extend " if p == "schema_ext" else "", p_dirs(d.get("dirs")), "\n".join(lines))
     pre = "extend " if p == "ext" else ""
     name = piece["name"]
@@ -544,10 +550,16 @@ def known_signature(diff):
 
 
 def build_and_check(spec):
-    """raises Violation; returns class labels"""
-    M = spec["model"]
+    """raises Violation; returns class labels.  Every SDL is built twice in the same process (two schema
+    names): a second engine from the same text must behave like the first."""
     clean_registry()
-    name = "c11"
+    labels = build_once(spec, "c11")
+    build_once(spec, "c11again", second=True)
+    return labels
+
+
+def build_once(spec, name, second=False):
+    M = spec["model"]
     for n, d in M["types"].items():
         if d["kind"] == "SCALAR":
             from tfv.impl import make_scalar
@@ -562,7 +574,7 @@ def build_and_check(spec):
         try:
             engine = run_async(create_engine(sdl_arg, schema_name=name, sdl_file_encoding="utf-8"))
         except Exception as e:  # noqa
-            raise Violation(spec, "valid SDL refused: %r\nmode=%s\nSDL:\n%s" % (e, spec["mode"], spec["text"]), tag="refused")
+            raise Violation(spec, "valid SDL refused%s: %r\nmode=%s\nSDL:\n%s" % (" when built a second time in the same process" if second else "", e, spec["mode"], spec["text"]), tag="refused")
     finally:
         if tmp:
             shutil.rmtree(tmp, ignore_errors=True)
